@@ -192,7 +192,15 @@ fn check_detector_file(seqs: &[Vec<u16>], as_contract: bool, nested: bool, rng: 
         for (j, &bits) in seq.iter().enumerate() {
             let tys = types_of_size(bits, !as_contract);
             let ty = rng.pick(&tys);
-            text.push_str(&format!("  {} m{}_{};\n", ty, i, j));
+            // member names are arbitrary identifiers; some follow conventions (`__gap`, `_reserved`) that mean nothing to the layout
+            let nm = match rng.below(12) {
+                0 => format!("__gap{}_{}", i, j),
+                1 => format!("__gap_{}_{}", i, j),
+                2 => format!("_reserved{}_{}", i, j),
+                3 => format!("gap{}_{}", i, j),
+                _ => format!("m{}_{}", i, j),
+            };
+            text.push_str(&format!("  {} {};\n", ty, nm));
         }
         text.push_str("}\n");
     }
@@ -525,6 +533,25 @@ pub fn run(ctx: &Ctx) -> i32 {
                 let mut group = vec![asc, desc, sh];
                 rng.shuffle(&mut group);
                 seqs.extend(group);
+            }
+        }
+        // size lists whose decimal spellings read alike when written one after the other: (16, 8, ..) and (168, ..)
+        for (x, y, z) in [(16u16, 8u16, 168u16), (24, 8, 248), (8, 8, 88)] {
+            let tails: [&[u16]; 4] = [&[256, 96], &[256, 8], &[128, 256, 128], &[96]];
+            let tail = rng.pick(&tails).to_vec();
+            let mut a = vec![x, y];
+            a.extend(tail.iter());
+            let mut b = vec![z];
+            b.extend(tail.iter());
+            let mut c = tail.clone();
+            c.extend([x, y]);
+            let mut d = tail.clone();
+            d.push(z);
+            let mut group = vec![a, b, c, d];
+            rng.shuffle(&mut group);
+            let at = rng.below(seqs.len() + 1);
+            for g in group {
+                seqs.insert(at.min(seqs.len()), g);
             }
         }
         check_detector_file(&seqs, as_contract, rng.chance(1, 2), rng, acc);
